@@ -8,6 +8,7 @@ import (
 	"math"
 	"sort"
 	"strings"
+	"sync/atomic"
 	"time"
 
 	"github.com/mandykoh/prism/cielab"
@@ -233,6 +234,54 @@ func runC13(r *core.Run) {
 		r.AddEvals(n)
 		r.NTCount(n)
 		r.Obs("patterned_white_colour_cases", n)
+	}
+	// many goroutines convert at once, some repeating one colour (neutral colours: the three ratios are
+	// equal), others running through different ones: a value remembered from the previous call must be
+	// the caller's own
+	{
+		var n atomic.Int64
+		var bad atomic.Int32
+		iters := 60000
+		if r.Thorough() {
+			iters = 2000000
+		}
+		firstUseBurst(8, false, func(g int) {
+			rg := core.NewRNG(r.Seed, "C13", "concurrent", fmt.Sprint(g))
+			w := [][3]float32{c13D50, c13D65}[g%2]
+			for i := 0; i < iters && bad.Load() == 0; i++ {
+				var in [3]float32
+				switch {
+				case g < 2: // the white itself, over and over
+					in = w
+				case g < 4: // greys
+					k := float32(i%97+1) / 97
+					in = [3]float32{w[0] * k, w[1] * k, w[2] * k}
+				default:
+					in = [3]float32{float32(rg.Uniform(0, 1.2)), float32(rg.Uniform(0, 1.2)), float32(rg.Uniform(0, 1.2))}
+				}
+				lab, pan := c13ToLab(in, w)
+				n.Add(1)
+				if pan != nil {
+					continue
+				}
+				ref := refcolor.XYZToLab(v64(in), v64(w))
+				if !(math.Abs(float64(lab.L)-ref[0]) <= 1e-3 && math.Abs(float64(lab.A)-ref[1]) <= 1e-3 && math.Abs(float64(lab.B)-ref[2]) <= 1e-3) {
+					if bad.Add(1) == 1 {
+						r.Violate("xyz", "forward/concurrent", fmt.Sprintf("ToLAB(%v, white %v) = %v while eight goroutines convert at once; CIE 1976 definition gives %v", in, w, lab, ref), c13Case{Kind: "forward", White: w, In: in})
+					}
+				}
+				if i%16 == 0 {
+					back, _ := c13FromLab([3]float32{float32(ref[0]), float32(ref[1]), float32(ref[2])}, w)
+					for k, b := range []float32{back.X, back.Y, back.Z} {
+						if !(math.Abs(float64(b)-float64(in[k])) <= 2e-5*math.Max(1, float64(in[k]))) && bad.Add(1) == 1 {
+							r.Violate("lab", "inverse/concurrent", fmt.Sprintf("ColorFromLAB(%v, white %v) = %v while eight goroutines convert at once; the colour was %v", ref, w, back, in), c13Case{Kind: "inverse", White: w, In: [3]float32{float32(ref[0]), float32(ref[1]), float32(ref[2])}})
+						}
+					}
+				}
+			}
+		})
+		r.AddEvals(n.Load())
+		r.Obs("conversions_by_eight_goroutines_at_once", n.Load())
 	}
 	var maxFwd, maxRT, maxInv float64
 	type acc struct{ f, rt, inv float64 }
